@@ -24,7 +24,7 @@ EXPLANATION = (
     "variable; R3 Where pushes if(filter value) after translating the filter and publishes a sequence whose scope token is "
     "read after the push; R4 First declares its flag (initial true) on the block outside the loop, emits if(flag){flag=false;} "
     "at the sequence-value scope and leaves it open, and attaches if(flag){throw} to the outside block after the loop; R5 "
-    "indexing goes through at(); R6 tuple/list/dict elements are translated independently (retain_scope) so one element's guards never enclose the next."
+    "indexing goes through at(); R6 tuple/list/dict elements are translated independently (retain_scope) so one element's guards never enclose the next; R7 the runner's job step is in a plain errexit context so a thrown fault fails the run."
 )
 ASSUMPTIONS = [
     "the scope tokens place the emitted blocks where the typestate says (runtime scope algebra, see C01)",
@@ -43,6 +43,22 @@ def check(col: Collector, tier: str):
     check_subscript(col, repo, m)
     col.floor("C04.R6", 3)
     check_container_elements(col, "C04.R6", m)
+    # R7 a job that throws (First() on an empty sequence, at() past the end) must fail the run: the job step of every
+    # runner stands in a plain errexit context, so its non-zero status ends the script before anything is delivered
+    from sa.core.common import REPO
+    from sa.core.shell_facts import parse_script
+    from sa.props.c16 import JOB_STEP, SCRIPTS
+    col.floor("C04.R7", 3)
+    for key, rel in SCRIPTS.items():
+        root, cmds = parse_script((REPO / rel).read_text())
+        tool, needle = JOB_STEP[key]
+        jobs = [c for c in cmds if c.node.name == tool and needle in " ".join(c.node.args)]
+        first = [c for c in cmds if not c.ctx.startswith("subst")][0].node
+        ok = len(jobs) == 1 and jobs[0].ctx == "plain" and first.name == "set" and "-e" in first.args
+        col.add("C04.R7", f"runner:{key}", "thrown-fault-fails-the-run", ok,
+                f"the analysis job step ({tool}) must run in a plain `set -e` context (found context "
+                f"{[c.ctx for c in jobs]}): `job && echo done`, `job | tee log` or `job || true` turn a fault thrown by the generated code "
+                "into a successful run that delivers the partial output", f"{rel}:{jobs[0].node.line if jobs else 0}")
 
 
 def _need(m, name):
